@@ -51,6 +51,7 @@ class LoopSummariser:
         k = kvar(depth)
         body_env = env.copy()
         lo, hi = Poly.const(0), None
+        desc = False
         it = s.iter
         # ------------------------------------------------ iteration space
         if isinstance(it, ast.Call) and isinstance(it.func, ast.Name) and \
@@ -60,6 +61,14 @@ class LoopSummariser:
                 hi = args[0]
             elif len(args) == 2:
                 lo, hi = args
+            elif args[2] == Poly.const(1):
+                lo, hi = args[0], args[1]
+            elif args[2] == Poly.const(-1):
+                # range(a, b, -1) visits {b+1, .., a}: summarised as the
+                # ascending scan of the same set - sound for reductions
+                # whose result does not depend on the order (checked below)
+                lo, hi = args[1] + Poly.const(1), args[0] + Poly.const(1)
+                desc = True
             else:
                 raise Unsupported("range with step", s)
             if not isinstance(s.target, ast.Name):
@@ -195,6 +204,13 @@ class LoopSummariser:
                 final[nm] = _opaque(nm, "non-numeric initial value")
                 continue
             final[nm] = self._close(nm, u, ca, k, lo, hi, init)
+        if desc:
+            for nm, v in final.items():
+                kinds = {a[0] for a in all_atoms(v)} if isinstance(
+                    v, Poly) else {"?"}
+                if kinds & {"last", "first", "argmaxgroup", "opaque", "?"}:
+                    raise Unsupported("descending loop with an update that "
+                                      "depends on the order", s)
         for nm, v in final.items():
             env.vars[nm] = v
         for arr, summ in arr_summaries.items():
